@@ -610,6 +610,10 @@ def run_atomicity(cases):
             except Exception:  # noqa: BLE001
                 pass
             v_ = None
+            try:
+                type("W", (P.Rule,), {}).load_grammar('unrelated = "w" ; a load in between\r\n')
+            except Exception:  # noqa: BLE001
+                pass
             gc.collect()
         cls = type("A", (P.Rule,), {})
         before = {k: (id(o), id(getattr(o, "definition", None))) for k, o in P.Rule._obj_map.items()}
